@@ -19,7 +19,9 @@ import hashlib
 import os
 import sys
 
-sys.path.insert(0, os.environ.get("VERIF_TOOLS", "/verif/tools"))
+_HERE = os.path.dirname(os.path.abspath(__file__))          # checkout-relative: a snapshot of /verif elsewhere must use ITS tools and pins
+if _HERE not in sys.path:
+    sys.path.insert(0, _HERE)
 from extract_core import HEADER, Untranslatable, block, expr, find_def, src_ast, strip_doc, unit  # noqa: E402
 
 SALSA = "passlib/crypto/scrypt/_salsa.py"
